@@ -140,3 +140,8 @@ Proof. vm_compute. reflexivity. Qed.
 
 Lemma frozen_complete : map fst gen_frozen = map fst deployed_frozen.
 Proof. vm_compute. reflexivity. Qed.
+
+(** Graph has no field besides Nodes, and Reverse returns a graph built in
+    the call without writing to its receiver (seeded change C19-i). *)
+Lemma gen_graph_stateless : gen_graph_fields = ["Nodes"] /\ fst gen_reverse_fresh = true.
+Proof. vm_compute. split; reflexivity. Qed.
